@@ -503,7 +503,8 @@ class RealFS:
     def kind(self, p):
         try:
             st = _os.lstat(p)
-        except OSError:
+        except (OSError, ValueError):
+            # ValueError: a path with an embedded NUL byte names nothing
             return ABSENT
         return DIR if _stat.S_ISDIR(st.st_mode) else FILE
 
